@@ -1116,6 +1116,8 @@ class Interp:
         nm = getattr(si, 'var_name', None)
         if si.kind != 'signal' or si.parent is not None or not nm or getattr(si, 'alias', None) is not None:
             return False
+        if '[' in nm:
+            return False                       # an element of a list / dict of Signals, not a plain local
         fkey = getattr(si, 'var_file', None) or self.curfile
         ref = _signals_ref().get(fkey)
         if ref is None:
@@ -1127,9 +1129,14 @@ class Interp:
             return False                       # the reference has a local Signal of this name
         if si.name in v.rhs.sigs():
             return False
-        from .ir import _known_one_bit
+        from .ir import _known_one_bit, _is_bool
         rw = 1 if _known_one_bit(v.rhs) else v.rhs.w
-        if si.w is None or rw is None or rw != si.w:
+        if rw is None and si.w == 1 and v.rhs.op in ('&', '|', '~', 'sig') and _is_bool(v.rhs):
+            # a flag built from ports of undeclared width (fields of an interface of another class): the engine reads such
+            # ports as flags everywhere (ir.literals), so the named flag and the expression in place are the same thing
+            rw = 1
+        same_shape = getattr(si, 'shape_of_expr', None) is not None and si.shape_of_expr == v.rhs.canon()
+        if not same_shape and (si.w is None or rw is None or rw != si.w):
             return False
         if any(si.name in a.lhs_sigs() for a in self.ir.assigns):
             return False                       # already driven elsewhere
@@ -1149,21 +1156,44 @@ class Interp:
             self.ir.inlined_locals.append((si.name, v.rhs.canon(), str(v.loc if v.loc else self.loc(node))))
             return
         if isinstance(v, Stmt):
-            def emit(rhs, guard):
+            def emit(lhs, rhs, guard):
                 if isinstance(rhs, E) and rhs.op == 'mux' and len(rhs.args) == 3 and isinstance(rhs.args[0], E):
                     # x.eq(Mux(c, a, b)) is `with m.If(c): x.eq(a)` / `with m.Else(): x.eq(b)`: one form for both spellings
                     c = rhs.args[0]
-                    emit(rhs.args[1], tuple(guard) + tuple(literals(c, True)))
-                    emit(rhs.args[2], tuple(guard) + tuple(literals(c, False)))
+                    emit(lhs, rhs.args[1], tuple(guard) + tuple(literals(c, True)))
+                    emit(lhs, rhs.args[2], tuple(guard) + tuple(literals(c, False)))
                     return
+                if isinstance(lhs, E) and lhs.op == 'cat' and len(lhs.args) > 1 and isinstance(rhs, E) and rhs.op == 'cat' and \
+                        len(rhs.args) == len(lhs.args) and all(isinstance(a, E) and isinstance(b, E) and (
+                            (isinstance(a.w, int) and a.w == b.w) or (a.w is None and a.op == 'sig'))
+                            for a, b in zip(lhs.args, rhs.args)) and any(a.w is None for a in lhs.args):
+                    # Cat(p, q).eq(Cat(x, y)) between ports of undeclared width (fields of an interface handed in from
+                    # outside): part by part.  Written separately (p.eq(x); q.eq(y)) a width mismatch between such ports is
+                    # just as invisible to the extractor, so nothing is lost by reading the merged spelling the same way.
+                    for a, b in zip(lhs.args, rhs.args):
+                        emit(a, b, guard)
+                    return
+                if isinstance(lhs, E) and lhs.op == 'cat' and len(lhs.args) > 1 and isinstance(rhs, E) and \
+                        all(isinstance(a, E) and isinstance(a.w, int) for a in lhs.args):
+                    # Cat(a, b, ...).eq(v) is a.eq(v[0:wa]); b.eq(v[wa:wa+wb]); ... -- one assignment per target, so that a
+                    # merged and a separate spelling give the same IR.  Only when v covers the whole Cat (or is a constant):
+                    # then no extension is involved.
+                    total = sum(a.w for a in lhs.args)
+                    is_const = rhs.op == 'const' and isinstance(rhs.val, int) and rhs.val >= 0
+                    if is_const or (isinstance(rhs.w, int) and rhs.w >= total):
+                        off = 0
+                        for part in lhs.args:
+                            emit(part, hdl.slice_of(rhs, off, off + part.w), guard)
+                            off += part.w
+                        return
                 self.order += 1
-                a = Assign(domain, v.lhs, rhs, guard, None, self.order, v.loc if v.loc else self.loc(node))
+                a = Assign(domain, lhs, rhs, guard, None, self.order, v.loc if v.loc else self.loc(node))
                 sts = self.cur_states()
                 a.states = sts
                 a.state = sts[-1] if sts else None
                 a.site = self.loc(node)
                 self.ir.assigns.append(a)
-            emit(v.rhs, self.guard())
+            emit(v.lhs, v.rhs, self.guard())
             return
         if isinstance(v, (list, tuple)):
             for x in v:
